@@ -20,3 +20,16 @@ Print Assumptions C12_probe_render.
 Theorem C12_holds : forall c, C12.wf c = true -> C12.kf c = 0%N -> C12.spec c (C12.model c) = true.
 Proof. exact C12_holds_proof. Qed.
 Print Assumptions C12_holds.
+
+(* ---- the regenerated constants this property's predicate / model rest on, against literals.
+   Gen/Consts.v is rewritten from the source of /repo on every run, so without this theorem an
+   edit of one of these constants would move model, predicate and code together and nothing
+   would be reported.  Used by: the shadowing file-system types of Model/MountInfo.v (C12.spec / C12.model: shadowed submounts).
+   "frozen" = no manual text gives the value; it is the value of the reviewed tree. *)
+From LC Require Import Gen.Consts Proofs.C12PinsP.
+Local Open Scope string_scope.
+Theorem C12_constants_pinned :
+  (* frozen from the reviewed tree; property C12 text: "mounts below a /dev or /sys style tree are recognised as shadowed submounts" *)
+  D_ShadowingFsTypes = bs "devtmpfs sysfs".
+Proof. exact c12_constants_pinned. Qed.
+Print Assumptions C12_constants_pinned.
